@@ -1,5 +1,5 @@
 (* The recursive-descent parser (src/syntax/*.rs), index-based exactly as in the code.
-   Every function returns the parse result together with the new value of parser.index. *)
+   Every function returns the parse result together with the remaining tokens (= parser.index). *)
 From SC.Model Require Import Base Num Types Case Post.
 
 Section WithNum.
@@ -24,133 +24,137 @@ Definition level_ops (l : level) : list N :=
   | LMulDiv => [OP_MUL; OP_DIV]
   end.
 
-Section Tokens.
-Variable tokens : list (token F).
-
-Definition peek (idx : nat) : option (token F) := nth_opt tokens idx.
+(* The parser position is the remaining token list (the suffix tokens[index..]); "the index
+   is restored" means the original suffix is returned. *)
+Definition toks := list (token F).
 
 (* match_operator: the first operator of the list that the current token equals *)
-Definition match_operator (ops : list N) (idx : nat) : option N :=
-  match peek idx with
-  | Some (TOperator c) => List.find (N.eqb c) ops
+Definition match_operator (ops : list N) (ts : toks) : option N :=
+  match ts with
+  | TOperator c :: _ => List.find (N.eqb c) ops
   | _ => None
   end.
 
 (* PrimativeParser::parse_basic_primatives (primative.rs:20-58) *)
-Definition parse_basic (idx : nat) : pres * nat :=
-  match peek idx with
-  | None => (PErr E_NO_MORE, idx)
-  | Some t =>
+Definition parse_basic (ts : toks) : pres * toks :=
+  match ts with
+  | [] => (PErr E_NO_MORE, ts)
+  | t :: r =>
     match t with
-    | TTimezone _ _ | TText _ => (PAst ANone, S idx)
-    | TDynamicType x u => (PAst (AItem (IDynamicType x u)), S idx)
-    | TMoney x c => (PAst (AItem (IMoney x c)), S idx)
-    | TNumber x nt => (PAst (AItem (INumber x nt)), S idx)
-    | TField f => (PAst (AField f), S idx)
-    | TPercent x => (PAst (AItem (IPercent x)), S idx)
-    | TTime x z => (PAst (AItem (ITime x z)), S idx)
-    | TDate x z => (PAst (AItem (IDate x z)), S idx)
-    | TDateTime x z => (PAst (AItem (IDateTime x z)), S idx)
-    | TDuration x => (PAst (AItem (IDuration x)), S idx)
-    | TVariable v => (PAst (AVariable v), S idx)
-    | TOperator _ | TMonth _ => (PErr E_NO_MORE, S idx)
+    | TTimezone _ _ | TText _ => (PAst ANone, r)
+    | TDynamicType x u => (PAst (AItem (IDynamicType x u)), r)
+    | TMoney x c => (PAst (AItem (IMoney x c)), r)
+    | TNumber x nt => (PAst (AItem (INumber x nt)), r)
+    | TField f => (PAst (AField f), r)
+    | TPercent x => (PAst (AItem (IPercent x)), r)
+    | TTime x z => (PAst (AItem (ITime x z)), r)
+    | TDate x z => (PAst (AItem (IDate x z)), r)
+    | TDateTime x z => (PAst (AItem (IDateTime x z)), r)
+    | TDuration x => (PAst (AItem (IDuration x)), r)
+    | TVariable v => (PAst (AVariable v), r)
+    | TOperator _ | TMonth _ => (PErr E_NO_MORE, r)
     end
   end.
 
-(* UnaryParser::parse_prefix_unary (unary.rs:25-57).  Note: on success the operand token is
-   NOT consumed (the index stays on it). *)
-Definition parse_prefix_unary (idx : nat) : pres * nat :=
-  match match_operator [OP_MINUS; OP_PLUS] idx with
-  | Some op =>
-    let idx1 := S idx in
-    match peek idx1 with
-    | Some t =>
-      let opt := if N.eqb op OP_PLUS then f1 else fm1 in
-      match t with
-      | TNumber x nt => (PAst (AItem (INumber (fmul x opt) nt)), idx1)
-      | TVariable v => (PAst (APrefixUnary op (AVariable v)), idx1)
-      | TPercent x => (PAst (APrefixUnary op (AItem (IPercent x))), idx1)
-      | TMoney x c => (PAst (APrefixUnary op (APrefixUnary op (AItem (IMoney x c)))), idx1)
-      | _ => (PErr E_UNARY, idx)
-      end
-    | None => (PAst ANone, idx1)
-    end
-  | None => (PAst ANone, idx)
-  end.
-
-Fixpoint parse_level (fuel : nat) (l : level) (idx : nat) {struct fuel} : pres * nat :=
+Fixpoint parse_level (fuel : nat) (l : level) (ts : toks) {struct fuel} : pres * toks :=
   match fuel with
-  | O => (PFuel, idx)
+  | O => (PFuel, ts)
   | S f =>
-    match parse_sub f l idx with
-    | (PAst ANone, i) => (PAst ANone, i)
-    | (PAst lft, i) => binary_loop f l lft i
+    match parse_sub f l ts with
+    | (PAst ANone, r) => (PAst ANone, r)
+    | (PAst lft, r) => binary_loop f l lft r
     | r => r
     end
   end
 (* T::parse for the level below *)
-with parse_sub (fuel : nat) (l : level) (idx : nat) {struct fuel} : pres * nat :=
+with parse_sub (fuel : nat) (l : level) (ts : toks) {struct fuel} : pres * toks :=
   match fuel with
-  | O => (PFuel, idx)
+  | O => (PFuel, ts)
   | S f =>
     match l with
-    | LAddSub => parse_level f LModulo idx
-    | LModulo => parse_level f LMulDiv idx
-    | LMulDiv => parse_unary f idx
+    | LAddSub => parse_level f LModulo ts
+    | LModulo => parse_level f LMulDiv ts
+    | LMulDiv => parse_unary f ts
     end
   end
 (* the outer loop of parse_binary (binary.rs:42-67) *)
-with binary_loop (fuel : nat) (l : level) (lft : ast F) (idx : nat) {struct fuel} : pres * nat :=
+with binary_loop (fuel : nat) (l : level) (lft : ast F) (ts : toks) {struct fuel} : pres * toks :=
   match fuel with
-  | O => (PFuel, idx)
+  | O => (PFuel, ts)
   | S f =>
-    match match_operator (level_ops l) idx with
+    match match_operator (level_ops l) ts with
     | Some op =>
-      match right_loop f l (S idx) with
-      | (PAst r, i) => binary_loop f l (ABinary lft op r) i
+      match right_loop f l (tl ts) with
+      | (PAst r, rest) => binary_loop f l (ABinary lft op r) rest
       | e => e
       end
-    | None => (PAst lft, idx)
+    | None => (PAst lft, ts)
     end
   end
 (* the inner loop: retry while the operand parser yields None *)
-with right_loop (fuel : nat) (l : level) (idx : nat) {struct fuel} : pres * nat :=
+with right_loop (fuel : nat) (l : level) (ts : toks) {struct fuel} : pres * toks :=
   match fuel with
-  | O => (PFuel, idx)
+  | O => (PFuel, ts)
   | S f =>
-    match parse_sub f l idx with
-    | (PAst ANone, i) => right_loop f l i
+    match parse_sub f l ts with
+    | (PAst ANone, r) => right_loop f l r
     | r => r
     end
   end
 (* UnaryParser::parse = map_parser [parse_prefix_unary; PrimativeParser::parse]
-   PrimativeParser::parse = map_parser [parse_parenthesis; parse_basic_primatives] *)
-with parse_unary (fuel : nat) (idx : nat) {struct fuel} : pres * nat :=
+   PrimativeParser::parse = map_parser [parse_parenthesis; parse_basic_primatives]
+   parse_prefix_unary (unary.rs:25-66): the operand token is consumed; a sign may precede a
+   parenthesised expression *)
+with parse_unary (fuel : nat) (ts : toks) {struct fuel} : pres * toks :=
   match fuel with
-  | O => (PFuel, idx)
+  | O => (PFuel, ts)
   | S f =>
-    match parse_prefix_unary idx with
-    | (PAst ANone, i) =>
-      (* parse_parenthesis (primative.rs:60-78) *)
-      match match_operator [OP_LP] i with
-      | Some _ =>
-        match parse_level f LAddSub (S i) with
-        | (PFuel, j) => (PFuel, j)
-        | (PAst ANone, _) => (PErr E_INVALID, i)
-        | (PErr m, _) => (PErr m, i)
-        | (PAst a, j) =>
-          match match_operator [OP_RP] j with
-          | Some _ => (PAst a, S j)
-          | None => (PErr E_PAREN, i)
-          end
+    match match_operator [OP_MINUS; OP_PLUS] ts with
+    | Some op =>
+      match tl ts with
+      | t :: r' =>
+        let opt := if N.eqb op OP_PLUS then f1 else fm1 in
+        match t with
+        | TNumber x nt => (PAst (AItem (INumber (fmul x opt) nt)), r')
+        | TVariable v => (PAst (APrefixUnary op (AVariable v)), r')
+        | TPercent x => (PAst (APrefixUnary op (AItem (IPercent x))), r')
+        | TMoney x c => (PAst (APrefixUnary op (APrefixUnary op (AItem (IMoney x c)))), r')
+        | TOperator c =>
+          if N.eqb c OP_LP then
+            match parse_paren f (tl ts) with
+            | (PAst a, rest) => (PAst (APrefixUnary op a), rest)
+            | e => e
+            end
+          else (PErr E_UNARY, ts)
+        | _ => (PErr E_UNARY, ts)
         end
-      | None => parse_basic i
+      | [] =>
+        (* Ok(None) with the operator consumed; the primary parser then fails at the end *)
+        parse_basic []
       end
-    | r => r
+    | None =>
+      match match_operator [OP_LP] ts with
+      | Some _ => parse_paren f ts
+      | None => parse_basic ts
+      end
+    end
+  end
+(* parse_parenthesis (primative.rs:60-78) on a list that starts with '(' *)
+with parse_paren (fuel : nat) (ts : toks) {struct fuel} : pres * toks :=
+  match fuel with
+  | O => (PFuel, ts)
+  | S f =>
+    match parse_level f LAddSub (tl ts) with
+    | (PFuel, r) => (PFuel, r)
+    | (PAst ANone, _) => (PErr E_INVALID, ts)
+    | (PErr m, _) => (PErr m, ts)
+    | (PAst a, r) =>
+      match match_operator [OP_RP] r with
+      | Some _ => (PAst a, tl r)
+      | None => (PErr E_PAREN, ts)
+      end
     end
   end.
-
-End Tokens.
 
 (* TokenType::to_string (types.rs:208-239), as far as variable names need it *)
 Definition Z_to_str (z : Z) : str :=
@@ -194,18 +198,18 @@ Fixpoint assign_name_loop (fuel : nat) (tokens : list (token F)) (vs : vars F) (
 Definition parse_fuel (tokens : list (token F)) : nat := (12 * length tokens + 24)%nat.
 
 (* returns the result, the session variables after the parse (a new variable is registered
-   at parse time with value None) and the parser index (it is NOT restored when the
+   at parse time with value None) and the parser position (it is NOT restored when the
    right-hand side parses to None) *)
-Definition parse_assignment (tokens : list (token F)) (vs : vars F) : pres * vars F * nat :=
+Definition parse_assignment (tokens : list (token F)) (vs : vars F) : pres * vars F * toks :=
   match find_index (is_op OP_EQ) tokens with
   | Some _ =>
     match nth_opt tokens 0 with
-    | None => (PAst ANone, vs, O)        (* unreachable: '=' exists so tokens is non-empty *)
+    | None => (PAst ANone, vs, tokens)   (* unreachable: '=' exists so tokens is non-empty *)
     | Some t0 =>
       let name0 := to_lowercase (token_to_string vs t0) in
       let '(idx, name) := assign_name_loop (S (length tokens)) tokens vs 0 name0 in
       let end_ := Nat.pred idx in
-      match parse_level tokens (parse_fuel tokens) LAddSub idx with
+      match parse_level (parse_fuel tokens) LAddSub (skipn idx tokens) with
       | (PAst ANone, i) => (PAst ANone, vs, i)
       | (PAst e, i) =>
         let vs' := if assoc_mem name vs then vs
@@ -214,13 +218,13 @@ Definition parse_assignment (tokens : list (token F)) (vs : vars F) : pres * var
       | (r, i) => (r, vs, i)
       end
     end
-  | None => (PAst ANone, vs, O)
+  | None => (PAst ANone, vs, tokens)
   end.
 
 (* SyntaxParser::parse = map_parser [AssignmentParser::parse; AddSubtractParser::parse] *)
 Definition parse (tokens : list (token F)) (vs : vars F) : pres * vars F :=
   match parse_assignment tokens vs with
-  | (PAst ANone, vs', i) => (fst (parse_level tokens (parse_fuel tokens) LAddSub i), vs')
+  | (PAst ANone, vs', rest) => (fst (parse_level (parse_fuel tokens) LAddSub rest), vs')
   | (r, vs', _) => (r, vs')
   end.
 
